@@ -67,6 +67,7 @@ impl PItem {
         cfg.por = get("por", 1)? != 0;
         cfg.max_items = get("mi", 0)? as u16;
         cfg.ops = get("ops", 0)? as u8;
+        cfg.probe = get("pf", 0)? != 0;
         Ok(PItem { key: key.to_string(), kv, cfg, runner })
     }
     pub fn s(&self, k: &str) -> &str {
@@ -286,11 +287,12 @@ pub fn driver_main(binary: &str, runner: fn(&PItem)) {
 // helpers shared by the family drivers
 // ---------------------------------------------------------------------------------------
 
+/// Per-child roles. `nv` / `al` / `eg` are bit masks over the first 64 positions; `nvp` / `alp` are
+/// dot separated position lists for wider containers (`nvp=0.64.199`).
 pub fn spec_for(item: &PItem, slot: usize) -> Spec {
-    let nv = item.u("nv", 0);
-    let al = item.u("al", 0);
-    let eg = item.u("eg", 0);
-    Spec { never: (nv >> slot) & 1 == 1, always: (al >> slot) & 1 == 1, can_err: item.u("err", 0) != 0, eager: (eg >> slot) & 1 == 1 }
+    let bit = |name: &str| -> bool { slot < 64 && (item.u(name, 0) >> slot) & 1 == 1 };
+    let pos = |name: &str| -> bool { item.s(name).split('.').filter(|s| !s.is_empty()).any(|s| s.parse::<usize>().ok() == Some(slot)) };
+    Spec { never: bit("nv") || pos("nvp"), always: bit("al") || pos("alp"), can_err: item.u("err", 0) != 0, eager: bit("eg") }
 }
 
 /// Expands to a `match` over the tuple arities 1..=12, binding `$t` to a tuple built from the
